@@ -44,7 +44,10 @@ STUBBED = ["durability of write-mode files (SimFile)", "OS errors", "process cra
 EMITS = ("class", "function", "argparse", "sqlalchemy", "sqlalchemy_table", "sqlalchemy_hybrid", "json_schema", "pydantic")
 KINDS = ("class", "function", "argparse", "json")
 TPLS = ("{name}Gen", "Auto{name}", "{name}_v2", "{name}")
-PREPENDS = ("PREPENDED = True\\n", "import os\\n", "from os import path\\n", "import json\\nPREPENDED = True\\n")
+PREPENDS = ("PREPENDED = True\\n", "import os\\n", "from os import path\\n", "import json\\nPREPENDED = True\\n",
+            # preludes that import OTHER names from the very modules the inferred imports come from
+            "from typing import List\\n", "from sqlalchemy import MetaData\\n",
+            "from typing import Dict\\nfrom sqlalchemy import MetaData\\nPREPENDED = True\\n")
 IMPORT_FILES = (("imports_src.py", "import os\nfrom collections import OrderedDict\n\nX = 1\n"),
                 ("imports_future.py", "from __future__ import annotations\n\nX = 1\n"),
                 ("imports_one.py", "import json\n\nX = 1\n"))
